@@ -29,11 +29,19 @@ Kernels (DESIGN.md section 4, C18; K6 / K7 are additions that run the whole prog
       quote imbalance, wrong-type and undefined symbols, invalid / extreme integers, regexes, globs, paths.   [selector]
   K7  the whole program on document-level mistakes (unknown phase, unknown instruction, bad header, inclusion of a
       missing file, unterminated here-document, redefinition ...) and odd characters.                       [selector]
+  K9  the whole program on mistakes that need SEVERAL FILES (harness/_C18_files): cycles of `including` directives of
+      length 1-3, entered directly or through another file, over five directory layouts, the closing (or every)
+      directive spelled in ten ways (plain, ./x, d/../x, ../d/x, through another directory, absolute, through a
+      symbolic link to the file / to its directory), the test case itself named in five ways; and chains of 1-3
+      inclusions whose last file is missing / a directory / not UTF-8 / a broken link / ... or holds each mistake
+      of the K7 catalogue: FILE_ACCESS_ERROR resp. the identifier of the mistake, exit 65, the whole chain of
+      `including` lines down to the offending line (file, line number, source), nothing executed.          [selector]
 """
 from typing import List
 
 from harness import _C18_cli as cli
 from harness import _C18_exc as exc
+from harness import _C18_files as files
 from harness import _C18_grammar as g
 from vsym import ob
 from vsym.ob import Ob
@@ -1190,10 +1198,73 @@ def documented_outcome(r) -> bool:
             and ident != 'INTERNAL_ERROR' and 'Traceback' not in r['stderr'])
 
 
-def _pre_k6(i: int) -> bool:
+# ---- the STATUS of the test case (`[conf] status = PASS | FAIL | SKIP`) as a dimension of every whole-program catalogue.
+# Added in round 5 (reported by the author of a seeded change: with status FAIL a validation error became XPASS).
+# What the help says (configuration parameter `status`): PASS - "executed and the assert phase is expected to PASS" (the
+# default); FAIL - "executed and the assert phase is expected to FAIL.  Outcome is XFAIL if assert FAILs.  If assert PASSes, the
+# result is XPASS"; SKIP - "the test case is not executed.  Outcome is SKIPPED".  Nothing else depends on the status: a
+# mistake is the same mistake, reported the same way, whatever the status - except that a test case that is not executed
+# (SKIP) only shows the mistakes that are found by reading it.
+STATUS = (None, 'PASS', 'FAIL', 'SKIP')
+ST_NONE, ST_PASS, ST_FAIL, ST_SKIP = 0, 1, 2, 3
+_STATUS_LINES = 2
+
+
+def _with_status(text: str, st: int) -> str:
+    """the test case with the status set, in a [conf] section of its own before everything else"""
+    return '[conf]\nstatus = %s\n' % STATUS[st] + text
+
+
+def _status_applicable(text: str) -> bool:
+    """lines before the first header belong to the default phase: a section put in front would give them to [conf]"""
+    return text.startswith('[')
+
+
+def _normalised_report(r, shift: int):
+    """(identifier, exit code, message) with the scratch directory of the run replaced by a fixed word and the line numbers of
+    the test case file lowered by `shift`"""
+    import re
+    work = r['path'].rsplit('/h/case/', 1)[0]
+    err = r['stderr'].replace(work, '<work>')
+    if shift:
+        err = re.sub(r'(?m)^(<work>/h/case/t\.case, line )(\d+)$', lambda m: m.group(1) + str(int(m.group(2)) - shift), err)
+    return r['ident'], r['rc'], err
+
+
+def _found_by_reading_the_file(r) -> bool:
+    """the outcome is a mistake found when the file is read: it names a line of a file and nothing was set up"""
+    return r['ident'] in ('SYNTAX_ERROR', 'FILE_ACCESS_ERROR', 'PRE_PROCESS_ERROR') and (r['path'] + ', line ') in r['stderr']
+
+
+def status_relation(st: int, base, r, bug: bool = False) -> bool:
+    """`base`: the outcome of a test case without a status line; `r`: the outcome of the same test case with the status st"""
+    if not documented_outcome(r):
+        return False
+    same = _normalised_report(r, _STATUS_LINES) == _normalised_report(base, 0)
+    if st == ST_PASS:
+        return same
+    if st == ST_FAIL:
+        if base['ident'] in ('PASS', 'FAIL') or (bug and base['ident'] != 'SYNTAX_ERROR'):
+            # seeded oracle error: "expected to fail: either it fails, or it unexpectedly passes"
+            want = 'XFAIL' if base['ident'] == 'FAIL' else 'XPASS'
+            return (r['ident'] == want and r['rc'] == 33 and _normalised_report(r, _STATUS_LINES)[2] == _normalised_report(base, 0)[2]
+                    and r['process_starts'] == base['process_starts'] and r['sandboxes'] == base['sandboxes'])
+        return same
+    # SKIP: not executed
+    if r['process_starts'] != 0 or r['sandboxes'] != 0:
+        return False
+    if _found_by_reading_the_file(base):
+        return same
+    if r['ident'] == 'SKIPPED':
+        return r['rc'] == 0 and r['stderr'] == ''
+    # the configuration phase is what sets the status: a mistake that shows there may still show
+    return same and 'In [conf]\n' in base['stderr']
+
+
+def _pre_k6(i: int, st: int) -> bool:
     c = ob.case()
     lo, hi = c['range']
-    if not (lo <= i < hi):
+    if not (lo <= i < hi and 0 <= st < len(STATUS)):
         return False
     m = ob.pick(_mutants(c['level'])[lo:hi], i - lo)
     for region in g.regions_of(m[1], m[3]):
@@ -1202,18 +1273,22 @@ def _pre_k6(i: int) -> bool:
     return True
 
 
-def k6_cli(i: int) -> bool:
+def k6_cli(i: int, st: int) -> bool:
     """
-    pre: _pre_k6(i)
+    pre: _pre_k6(i, st)
     post: _
     """
     c = ob.case()
     lo, hi = c['range']
     bi, name, phase, text, act, exp, use = ob.pick(_mutants(c['level'])[lo:hi], i - lo)
-    if c.get('oracle_bug'):
+    st = ob.concrete_int(st, 0, len(STATUS) - 1)
+    if c.get('oracle_bug') == 'all-are-mistakes':
         exp = g.MISTAKE  # seeded oracle error: every mutant is claimed to be a mistake
     case, first, use_line = g.case_text(phase, text, act, use=use)
     r = cli.run_cli(case)
+    if st != ST_NONE:
+        # the same test case with a status: the outcome without one (judged in the path st = none) is carried over
+        return ob.post(status_relation(st, r, cli.run_cli(_with_status(case, st)), c.get('oracle_bug') == 'status'))
     if not documented_outcome(r):
         return ob.post(False)
     ident, err = r['ident'], r['stderr']
@@ -1388,10 +1463,12 @@ def _doc_in_region_nul(text: str) -> bool:
     return '\x00' in text and any(w in text for w in ('dir ', 'file ', 'exists ', 'copy ', 'cd ', 'contents '))
 
 
-def _pre_k7(i: int) -> bool:
+def _pre_k7(i: int, st: int) -> bool:
     c = ob.case()
     lo, hi = c['range']
-    if not (lo <= i < hi):
+    if not (lo <= i < hi and 0 <= st < len(STATUS)):
+        return False
+    if st != ST_NONE and not _status_applicable(ob.pick({'odd': DOC_ODD, 'latest': DOC_LATEST, 'mistakes': DOC_MISTAKES}[c['odd']], i)[1]):
         return False
     if c['odd'] == 'odd' and ob.excluded(REGION_NUL) and _doc_in_region_nul(ob.pick(DOC_ODD, i)[1]):
         return False
@@ -1402,12 +1479,17 @@ def _pre_k7(i: int) -> bool:
     return True
 
 
-def k7_document(i: int) -> bool:
+def k7_document(i: int, st: int) -> bool:
     """
-    pre: _pre_k7(i)
+    pre: _pre_k7(i, st)
     post: _
     """
     c = ob.case()
+    st = ob.concrete_int(st, 0, len(STATUS) - 1)
+    if st != ST_NONE:
+        # the same test case with a status: the outcome without one (judged in the path st = none) is carried over
+        text = ob.pick({'odd': DOC_ODD, 'latest': DOC_LATEST, 'mistakes': DOC_MISTAKES}[c['odd']], i)[1]
+        return ob.post(status_relation(st, cli.run_cli(text), cli.run_cli(_with_status(text, st)), c.get('oracle_bug') == 'status'))
     if c['odd'] == 'odd':
         name, text = ob.pick(DOC_ODD, i)
         r = cli.run_cli(text)
@@ -1426,7 +1508,7 @@ def k7_document(i: int) -> bool:
         return ob.post(documented_outcome(r) and r['ident'] in accepted
                        and _shows(r['stderr'], r['path'], line, text.split('\n')[line - 1]))
     name, text, idents, line, quoted = ob.pick(DOC_MISTAKES, i)
-    if c.get('oracle_bug'):
+    if c.get('oracle_bug') == 'identifier':
         idents = VAL
     r = cli.run_cli(text)
     if not documented_outcome(r) or r['ident'] not in idents or r['rc'] != 65:
@@ -1524,6 +1606,132 @@ def k8_terminates(i: int) -> bool:
             and 'Traceback (most recent call last)' not in err
             and out.split('\n', 1)[0] in cli.OUTCOMES and cli.OUTCOMES[out.split('\n', 1)[0]] == rc)
     return ob.post(good)
+
+
+# =========================================================================== K9  mistakes that need several files
+# The test case is a tree of files (harness/_C18_files): cycles of `including`, and chains of inclusions that end in a file
+# that cannot be read or that holds a mistake.  Added in round 5 (reported by the author of a seeded change: a cycle
+# that is closed through a path that is not in canonical form).
+
+REAL_FILES = REAL_CLI + (
+    'exactly_lib.section_document.document_parser.DocumentParser.parse_file',
+    'exactly_lib.section_document.document_parser.DocumentParser.parse_source',
+    'exactly_lib.section_document.impl.document_parser.parse_file',
+    'exactly_lib.section_document.impl.document_parser._Impl._include_files',
+    'exactly_lib.section_document.impl.file_access.read_source_file',
+    'exactly_lib.section_document.source_location.FileLocationInfo',
+    'exactly_lib.processing.parse.file_inclusion_directive_parser.FileInclusionDirectiveParser.parse',
+    'exactly_lib.common.err_msg.source_location',
+)
+STUBS_FILES = cli.STUBS + ('the tree of files (regular files, directories, symbolic links) is made on a real file system below a '
+                           'scratch directory',)
+ENTRY_FILES = 'MainProgram.execute([FILE]) (through the real argument parser)'
+# what can be wrong with the last file of a chain of inclusions: as a file; not at all (control); inside it
+K9_FAULTS = files.FILE_FAULTS + (files.CONTROL,) + tuple(m for m in DOC_MISTAKES if not m[0].startswith('included-file'))
+_K9_NL, _K9_NS, _K9_NP, _K9_NM = len(files.LAYOUTS), len(files.SPELLINGS), len(files.PHASES), len(files.MAIN_SPELLINGS)
+_K9_NUL = K9_FAULTS.index('nul-in-name')
+_K9_CONTROL = K9_FAULTS.index(files.CONTROL)  # the faults after it are mistakes inside the file
+_K9_FIRST_LINK_SPELLING = files.SPELLINGS.index('symlink-to-file')  # the spellings from here on are through symbolic links
+assert all(x.startswith('symlink') for x in files.SPELLINGS[_K9_FIRST_LINK_SPELLING:])
+
+
+def _k9_fault_name(f) -> str:
+    return f if isinstance(f, str) else f[0]
+
+
+def _pre_k9_cycle(tail: int, layout: int, spelling: int, everywhere: bool, phase: int, main: int) -> bool:
+    c = ob.case()
+    if not (0 <= tail <= 1 and 0 <= layout < _K9_NL and 0 <= spelling < _K9_NS and 0 <= phase < _K9_NP and 0 <= main < _K9_NM):
+        return False
+    if 'tail' in c and tail != c['tail']:
+        return False
+    if 'layout' in c and layout != c['layout']:
+        return False
+    if c.get('diag'):
+        # quick tier: section and the naming of the test case file are not crossed with the rest but vary along with it
+        if phase != (layout + spelling) % _K9_NP or main != (spelling + c['n'] + tail) % _K9_NM:
+            return False
+    return True
+
+
+def _nothing_executed(r) -> bool:
+    return r['process_starts'] == 0 and r['sandboxes'] == 0
+
+
+def k9_cycle(tail: int, layout: int, spelling: int, everywhere: bool, phase: int, main: int) -> bool:
+    """
+    pre: _pre_k9_cycle(tail, layout, spelling, everywhere, phase, main)
+    post: _
+    """
+    c = ob.case()
+    tail, layout, spelling = ob.concrete_int(tail, 0, 1), ob.concrete_int(layout, 0, _K9_NL - 1), ob.concrete_int(spelling, 0, _K9_NS - 1)
+    everywhere, phase, main = ob.concrete_bool(everywhere), ob.concrete_int(phase, 0, _K9_NP - 1), ob.concrete_int(main, 0, _K9_NM - 1)
+    # everything is concrete from here on: the tree is built, the program run and its output read natively
+    with cli.no_tracing():
+        sc = files.cycle(c['n'], tail, layout, spelling, everywhere, phase, main)
+        r = files.run(sc)
+        # an inclusion that cannot be carried out: the file cannot be accessed.  (Seeded oracle error: a syntax error.)
+        want = 'SYNTAX_ERROR' if c.get('oracle_bug') else 'FILE_ACCESS_ERROR'
+        verdict = (documented_outcome(r) and r['ident'] == want and r['rc'] == 65 and _nothing_executed(r)
+                   and files.shows_chain(r, sc))
+    return ob.post(verdict)
+
+
+def _pre_k9_defect(fault: int, layout: int, spelling: int, everywhere: bool, phase: int, main: int) -> bool:
+    c = ob.case()
+    lo, hi = c['faults']
+    if not (lo <= fault < hi and 0 <= layout < _K9_NL and 0 <= spelling < _K9_NS and 0 <= phase < _K9_NP and 0 <= main < _K9_NM):
+        return False
+    if fault == _K9_NUL and spelling >= _K9_FIRST_LINK_SPELLING:
+        return False  # a symbolic link to such a name cannot be made
+    diag = c.get('diag')
+    if diag:
+        # quick tier: one layout per (fault, spelling), two spellings per mistake inside a file; thorough tier: all of them.
+        # Section and naming of the test case file vary along
+        if diag == 'quick':
+            if everywhere or layout != (fault + spelling + c['depth']) % _K9_NL:
+                return False
+            if fault > _K9_CONTROL and spelling % 5 != fault % 5:
+                return False
+        if phase != (layout + spelling + fault) % _K9_NP or main != (spelling + c['depth'] + fault) % _K9_NM:
+            return False
+    return True
+
+
+def k9_defect(fault: int, layout: int, spelling: int, everywhere: bool, phase: int, main: int) -> bool:
+    """
+    pre: _pre_k9_defect(fault, layout, spelling, everywhere, phase, main)
+    post: _
+    """
+    c = ob.case()
+    lo, hi = c['faults']
+    f = K9_FAULTS[ob.concrete_int(fault, lo, hi - 1)]
+    layout, spelling = ob.concrete_int(layout, 0, _K9_NL - 1), ob.concrete_int(spelling, 0, _K9_NS - 1)
+    everywhere, phase, main = ob.concrete_bool(everywhere), ob.concrete_int(phase, 0, _K9_NP - 1), ob.concrete_int(main, 0, _K9_NM - 1)
+    # everything is concrete from here on: the tree is built, the program run and its output read natively
+    with cli.no_tracing():
+        sc = files.defect(c['depth'], f, layout, spelling, everywhere, phase, main)
+        verdict = _k9_defect_verdict(f, sc, files.run(sc), c.get('oracle_bug'))
+    return ob.post(verdict)
+
+
+def _k9_defect_verdict(f, sc, r, bug) -> bool:
+    if not documented_outcome(r):
+        return False
+    if f == files.CONTROL:
+        return r['ident'] == 'PASS'
+    if isinstance(f, str):
+        # the file cannot be read: reported at the directive that names it
+        return (r['ident'] == ('SYNTAX_ERROR' if bug else 'FILE_ACCESS_ERROR') and r['rc'] == 65 and _nothing_executed(r)
+                and files.shows_chain(r, sc))
+    # "equivalent to having the contents of the included file in the including file": the mistake of the catalogue, at its line
+    # of the included file, below the chain of directives that lead there
+    name, text, idents, line, quoted = f
+    if r['ident'] not in (VAL if bug else idents) or r['rc'] != 65 or not _nothing_executed(r):
+        return False
+    if line is None:
+        return 'In [act]\n' in r['stderr'] and ('  ' + quoted + '\n') in r['stderr']
+    return files.shows_chain(r, sc)
 
 
 def obligations(tier: str) -> List[Ob]:
@@ -1632,6 +1840,9 @@ def obligations(tier: str) -> List[Ob]:
     obs.append(Ob(name='K5:processor:seeded-oracle-error', fn='k5_processor', case=dict(names='mini', oracle_bug=True), kernel='K5',
                   selector=True, bound='seeded: exit code 0 is claimed for an internal error', timeout=300, expect=ob.REFUTE))
     # ---- K6
+    st_text = ('; each as it stands and with `[conf] status = PASS | FAIL | SKIP` put in front: with PASS the same outcome and message; with '
+               'FAIL the same, but XPASS / XFAIL for PASS / FAIL; with SKIP the same if the mistake is found by reading the file, '
+               'else SKIPPED and nothing executed (a mistake that shows in [conf] may still show)')
     level = 0 if quick else 1
     muts = _mutants(level)
     for lo, hi in _chunks(len(muts), 42 if quick else 64):
@@ -1641,27 +1852,34 @@ def obligations(tier: str) -> List[Ob]:
                       bound='mutants %d..%d of the catalogue (%d mutants of %d valid instructions; here of the instructions %s): '
                             'token deletion / duplication / transposition / replacement by reserved words, truncation, quote '
                             'imbalance, wrong-type and undefined symbols, invalid / extreme integers, regexes, globs, strings, paths'
-                            % (lo, hi - 1, len(muts), len(g.BASES), [g.line_of(g.BASES[b][1])[:40] for b in bases][:6]),
+                            % (lo, hi - 1, len(muts), len(g.BASES), [g.line_of(g.BASES[b][1])[:40] for b in bases][:6]) + st_text,
                       timeout=1500, real=REAL_CLI, stubs=cli.STUBS, entry='MainProgram.execute([FILE]) past its argument parser: MainProgram.execute_test_case(settings).report(environment)',
                       outside=('mutants not in the catalogue; processes are not started (exit code 0, no output)',)))
-    obs.append(Ob(name='K6:seeded-oracle-error', fn='k6_cli', case=dict(level=0, range=(0, 12), oracle_bug=True), kernel='K6',
+    obs.append(Ob(name='K6:seeded-oracle-error', fn='k6_cli', case=dict(level=0, range=(0, 12), oracle_bug='all-are-mistakes'), kernel='K6',
                   selector=True, bound='seeded: every mutant is claimed to be a mistake', timeout=600, expect=ob.REFUTE))
+    obs.append(Ob(name='K6:status:seeded-oracle-error', fn='k6_cli', case=dict(level=0, range=(0, 12), oracle_bug='status'), kernel='K6',
+                  selector=True, bound='seeded: with status FAIL every outcome but FAIL (and a syntax error) is claimed to be XPASS',
+                  timeout=600, expect=ob.REFUTE))
     # ---- K7
     for lo, hi in _chunks(len(DOC_MISTAKES), 25):
         obs.append(Ob(name='K7:mistakes:%d-%d' % (lo, hi - 1), fn='k7_document', case=dict(odd='mistakes', range=(lo, hi)), kernel='K7',
                       selector=True, bound='document-level mistakes %s: exit 65 with the stated identifier, file, line number and '
-                                           'source line; nothing executed' % [d[0] for d in DOC_MISTAKES[lo:hi]],
+                                           'source line; nothing executed' % [d[0] for d in DOC_MISTAKES[lo:hi]] + st_text,
                       timeout=900, real=REAL_CLI, stubs=cli.STUBS, entry='MainProgram.execute([FILE]) past its argument parser: MainProgram.execute_test_case(settings).report(environment)'))
     obs.append(Ob(name='K7:odd-texts', fn='k7_document', case=dict(odd='odd', range=(0, len(DOC_ODD))), kernel='K7', selector=True,
-                  bound='odd texts %s: a documented outcome other than INTERNAL_ERROR' % [d[0] for d in DOC_ODD],
+                  bound='odd texts %s: a documented outcome other than INTERNAL_ERROR' % [d[0] for d in DOC_ODD] + st_text +
+                        ' (texts that begin with a section header only)',
                   timeout=900, real=REAL_CLI, stubs=cli.STUBS, entry='MainProgram.execute([FILE]) past its argument parser: MainProgram.execute_test_case(settings).report(environment)'))
     obs.append(Ob(name='K7:reported-at-the-latest-when-run', fn='k7_document', case=dict(odd='latest', range=(0, len(DOC_LATEST))),
                   kernel='K7', selector=True,
                   bound='mistakes in integer expressions, regular expressions, replacement strings and glob patterns %s: exit 65 or '
-                        'HARD_ERROR, naming the instruction' % [d[0] for d in DOC_LATEST],
+                        'HARD_ERROR, naming the instruction' % [d[0] for d in DOC_LATEST] + st_text,
                   timeout=900, real=REAL_CLI, stubs=cli.STUBS, entry='MainProgram.execute([FILE]) past its argument parser: MainProgram.execute_test_case(settings).report(environment)'))
-    obs.append(Ob(name='K7:seeded-oracle-error', fn='k7_document', case=dict(odd='mistakes', range=(0, 2), oracle_bug=True), kernel='K7',
+    obs.append(Ob(name='K7:seeded-oracle-error', fn='k7_document', case=dict(odd='mistakes', range=(0, 2), oracle_bug='identifier'), kernel='K7',
                   selector=True, bound='seeded: a syntax error is claimed to be a validation error', timeout=300, expect=ob.REFUTE))
+    obs.append(Ob(name='K7:status:seeded-oracle-error', fn='k7_document', case=dict(odd='latest', range=(0, 3), oracle_bug='status'),
+                  kernel='K7', selector=True, bound='seeded: with status FAIL every outcome but FAIL (and a syntax error) is claimed to be '
+                                                    'XPASS', timeout=300, expect=ob.REFUTE))
     # ---- K8
     obs.append(Ob(name='K8:terminates', fn='k8_terminates', case=dict(), kernel='K8', selector=True,
                   bound='test cases with the integer expressions %s: the program ends within %d s with a documented outcome other than '
@@ -1672,6 +1890,50 @@ def obligations(tier: str) -> List[Ob]:
                            'observed as "within %d s on this machine"' % K8_LIMIT_S,)))
     obs.append(Ob(name='K8:seeded-oracle-error', fn='k8_terminates', case=dict(oracle_bug=True), kernel='K8', selector=True,
                   bound='seeded: every test case is claimed to PASS', timeout=300, expect=ob.REFUTE))
+    # ---- K9
+    sp_text = 'the closing directive, or every directive, spelled %s' % (list(files.SPELLINGS),)
+    lay_text = 'files laid out as %s' % ([l[0] for l in files.LAYOUTS],)
+    what_cycle = ('FILE_ACCESS_ERROR, exit 65, nothing executed, the message shows every `including` line of the chain in order (file - by '
+                  'the name used and denoting that file -, line number, source line)')
+    if quick:
+        for n in (1, 2, 3):
+            obs.append(Ob(name='K9:cycle:len%d' % n, fn='k9_cycle', case=dict(n=n, diag=True), kernel='K9', selector=True,
+                          bound='a cycle of %d file(s) including each other, entered at once or after one other file; %s; %s; the '
+                                'section of the first directive (%s) and the way the test case file is named (%s) vary along with layout '
+                                'and spelling (not crossed): %s' % (n, lay_text, sp_text, list(files.PHASES), list(files.MAIN_SPELLINGS),
+                                                                     what_cycle),
+                          timeout=600, real=REAL_FILES, stubs=STUBS_FILES, entry=ENTRY_FILES,
+                          outside=('cycles of more than 3 files; hard links, bind mounts; `including` in [act] is source code of the actor',)))
+    else:
+        for n in (1, 2, 3):
+            for tail in (0, 1):
+                for li, lay in enumerate(files.LAYOUTS):
+                    obs.append(Ob(name='K9:cycle:len%d:tail%d:%s' % (n, tail, lay[0]), fn='k9_cycle', case=dict(n=n, tail=tail, layout=li),
+                                  kernel='K9', selector=True,
+                                  bound='a cycle of %d file(s) including each other, entered after %d other file(s); files laid out as %s; '
+                                        '%s; the first directive in each of the sections %s; the test case file named in each of the '
+                                        'ways %s: %s' % (n, tail, lay[0], sp_text, list(files.PHASES), list(files.MAIN_SPELLINGS), what_cycle),
+                                  timeout=1500, real=REAL_FILES, stubs=STUBS_FILES, entry=ENTRY_FILES,
+                                  outside=('cycles of more than 3 files; hard links, bind mounts',)))
+    obs.append(Ob(name='K9:cycle:seeded-oracle-error', fn='k9_cycle', case=dict(n=2, tail=0, layout=1, diag=True, oracle_bug=True), kernel='K9',
+                  selector=True, bound='seeded: a cycle is claimed to be a syntax error', timeout=300, expect=ob.REFUTE))
+    nf = len(K9_FAULTS)
+    for depth in ((1, 2) if quick else (1, 2, 3)):
+        for lo, hi in _chunks(nf, 21 if quick else 8):
+            obs.append(Ob(name='K9:defect:depth%d:%d-%d' % (depth, lo, hi - 1), fn='k9_defect',
+                          case=dict(depth=depth, faults=(lo, hi), diag='quick' if quick else 'thorough'), kernel='K9', selector=True,
+                          bound='a chain of %d inclusion(s) whose last file is %s; %s (%s); %s; section of the first directive and naming of '
+                                'the test case file vary along: a file that cannot be read is FILE_ACCESS_ERROR at the directive that names '
+                                'it, a mistake in the file has the identifier of the catalogue and is shown below the chain of directives, '
+                                'at its line of its file; exit 65, nothing executed; the control PASSes'
+                                % (depth, [_k9_fault_name(f) for f in K9_FAULTS[lo:hi]], lay_text,
+                                   'one layout per fault and spelling' if quick else 'each', sp_text if not quick else
+                                   'the last directive spelled %s (a mistake inside the file: two of them)' % (list(files.SPELLINGS),)),
+                          timeout=900 if quick else 2400, real=REAL_FILES, stubs=STUBS_FILES, entry=ENTRY_FILES,
+                          outside=('files that cannot be read for lack of permission (the check may run as root)',)))
+    obs.append(Ob(name='K9:defect:seeded-oracle-error', fn='k9_defect', case=dict(depth=1, faults=(0, 12), diag='quick', oracle_bug=True),
+                  kernel='K9', selector=True, bound='seeded: a file that cannot be read is claimed to be a syntax error, a syntax error '
+                                                    'in an included file a validation error', timeout=300, expect=ob.REFUTE))
     return obs
 
 
